@@ -24,3 +24,13 @@ Proof.
   intros Hs Ht E. pose proof (utf8_roundtrip s Hs) as A. pose proof (utf8_roundtrip t Ht) as B.
   rewrite E in A. rewrite A in B. injection B as ->. reflexivity.
 Qed.
+
+(* the command line model (Cli/Cli.v) speaks of what reading a source gives: RText t (decoded text) or RBad (the bytes are
+   not UTF-8: the command crashes with UnicodeDecodeError).  In terms of the bytes on disk / on standard input: *)
+From YP Require Import Cli.Cli.
+
+Definition rd_of_bytes (b : list N) : rdres :=
+  match utf8_decode b with Some t => RText t | None => RBad end.
+
+Theorem cli_reads_text s : forallb is_scalar s = true -> rd_of_bytes (utf8_encode s) = RText s.
+Proof. intros H. unfold rd_of_bytes. rewrite (utf8_roundtrip s H). reflexivity. Qed.
